@@ -289,7 +289,8 @@ func runPubFlush(c Case) lib.Result {
 		K, F string
 		N    int
 		O    []GOp
-	}{"pubflush", c.Fmt, c.N, c.Ops})}
+		W    int
+	}{"pubflush", c.Fmt, c.N, c.Ops, c.Warm})}
 	dir, _ := os.Getwd()
 	tags := map[string]bool{"multi-format-flush": true, "formats-" + c.Fmt: true}
 	bench, err := dastard.VerifNewBench(2, pubNpre, c.N, 100000, nil)
@@ -384,6 +385,29 @@ func runPubFlush(c Case) lib.Result {
 		}
 	}
 	dsp := bench.VerifDsp(0)
+	if c.Warm > 0 {
+		// an earlier file through the SAME publisher: c.Warm records, flush, close; its files are discarded
+		tags["publisher-used-before"] = true
+		save := files
+		files = nil
+		configure(dsp, "warm", true)
+		warm := files
+		files = save
+		for j := 0; j < c.Warm; j++ {
+			rj, _ := record(j)
+			if err := dsp.VerifPublish([]dastard.VerifRecord{rj}); err != nil {
+				panic(err)
+			}
+		}
+		wdp := dsp.VerifPublisher()
+		wdp.Flush()
+		wdp.RemoveLJH22()
+		wdp.RemoveLJH3()
+		wdp.RemoveOFF()
+		for _, wf := range warm {
+			os.Remove(wf.path)
+		}
+	}
 	configure(dsp, "out", true)
 	for k, f := range files {
 		f.hdr = refs[k].hdr
